@@ -13,7 +13,7 @@ import warnings
 from harness import ctxrun, forms
 from harness import gen_ctx as GC
 from harness import impl as I
-from harness.common import ImplWorker, Model, Report, rng_for, sx_str
+from harness.common import ImplWorker, Model, Report, rng_for, sx_str, depth
 
 warnings.simplefilter("ignore")
 KEYS = ("v", "kind", "name", "idx", "expected", "actual", "missing", "valid", "exn")
@@ -156,7 +156,7 @@ def model_req(h: dict) -> str:
 
 def run(tier: str, seed: int, rep: Report, model: Model) -> dict:
     rnd = rng_for("C17", seed)
-    n = 400 if tier == "quick" else 4000
+    n = depth(tier, 400, 4000)
     rep.rule = ("generated models (1-4 fields, optional / plain fields, markers, expressions) with 2-4 constructions / model_validate calls in "
                 "shuffled keyword order (conforming or with one / two faults) and, under validate_assignment, one assignment; nested models; "
                 "class-definition dtype cross-check for npt.NDArray[...]; distinct = distinct history; non-trivial = at least two validations")
